@@ -9,6 +9,9 @@
     each one on the real code under GOMAXPROCS(1) with strict hand-off: at call granularity on a tree without
     hooks, at pool.Get / pool.Put granularity when the ojg tree has the verif hooks (findings/C08-hooks.patch;
     detected by grepping the tree for VerifHook, then built with -tags verif,verifhooks).
+    API class "hook" (calls that run user code in the middle; resource class "scratch" of the model): the gates are the
+    call boundaries and the USER's hook, where the replayer parks the goroutine on any tree; TLC's schedules for two
+    goroutines x one hook call each are additionally replayed for every real function of the class against itself.
 (c) free-running part: N in {2, 4, 16} goroutines x seeded random call sequences over the whole API menu,
     built with -race; every result is compared with its sequential value (computed by a separate sequential
     process), buffers held by callers are re-inspected after other goroutines ran, DATA RACE reports become
@@ -23,7 +26,7 @@ import verif
 from verif import Infra, log
 
 TRACE_CFG = """SPECIFICATION TraceSpec
-CONSTANTS N = 1 MaxCalls = 0 Menu = {} Copies = {} LockedLookup = TRUE PreRegistered = TRUE ExclusivePool = TRUE Gran = "fine"
+CONSTANTS N = 1 MaxCalls = 0 Menu = {} Copies = {} LockedLookup = TRUE PreRegistered = TRUE ExclusivePool = TRUE Scratch = "percall" Gran = "fine"
 MaxBad = 5000
 CHECK_DEADLOCK FALSE
 POSTCONDITION Post
@@ -33,7 +36,7 @@ GEN_CFG = """SPECIFICATION Spec
 CONSTANTS N = %d MaxCalls = %d
 Menu = {%s}
 Copies = {"json", "marshal", "bytes", "parse", "struct"}
-LockedLookup = TRUE PreRegistered = TRUE ExclusivePool = TRUE Gran = "%s"
+LockedLookup = TRUE PreRegistered = TRUE ExclusivePool = TRUE Scratch = "percall" Gran = "%s"
 CONSTRAINT Emit
 CHECK_DEADLOCK FALSE
 """
@@ -82,6 +85,7 @@ def gen_schedules(ctx, n, maxcalls, menu, gran):
         key = json.dumps(s, sort_keys=True)
         if key not in seen and any(s["prog"]):
             seen.add(key)
+            s["gran"] = gran
             out.append(s)
     if not out:
         raise Infra("schedule generation produced nothing")
@@ -155,7 +159,8 @@ def run_case(ctx, case, out, k):
     rp = os.path.join(ctx.scratch, "race_%d_%d" % (ctx._n, k))
     env = {"GORACE": "log_path=%s exitcode=0" % rp, "VERIF_SEED": str(fr.get("seed", ctx.seed))}
     p = ctx.run([build(ctx, race=True), "free", "-ref", ref, "-n", str(fr["n"]), "-ops", str(fr["ops"]), "-runs",
-                 str(fr["runs"]), "-procs", str(fr.get("procs", 0)), "-only", fr.get("only", ""), "-args", fr.get("args", "")],
+                 str(fr["runs"]), "-procs", str(fr.get("procs", 0)), "-only", fr.get("only", ""), "-args", fr.get("args", ""),
+                 "-skip", fr.get("skip", ""), "-pick", str(fr.get("pick", 0))],
                 env=env, timeout=1800,
                 check=False)
     lines = [l for l in p.stdout.split(b"\n") if l.strip()]
@@ -255,22 +260,45 @@ def main(ctx):
     q = ctx.quick
     hooks = has_hooks(ctx)
     log("verif hooks in the ojg tree: %s" % hooks)
-    # (a) design
-    ctx.design("Concurrency", "Concurrency_n2q.cfg" if q else "Concurrency_n2.cfg", workers=4, coverage=not q, heap="8g",
-               timeout=1500)
+    # (a) design checks and (b) schedule generation: independent TLC runs, four at a time
+    import concurrent.futures as cf
+    designs = [("Concurrency_n2q.cfg" if q else "Concurrency_n2.cfg", None, dict(workers=2 if q else 4, coverage=not q, heap="8g", timeout=1500)),
+               # the "scratch" resource class (API class hook): per-call scratch holds every invariant; ONE package-level
+               # scratch used across the user's hook without a lock, and a pooled scratch released before the hook reads it,
+               # must fail (non-vacuity = the shortest bad schedules, replayed below at hook granularity)
+               ("Concurrency_hookq.cfg", None, dict(workers=2, heap="4g", timeout=900)),   # (coverage: n2.cfg has all 8 classes)
+               ("Concurrency_globalscratch.cfg", "NoUnlockedWriteRead", dict(workers=2, count=False, heap="4g")),
+               ("Concurrency_releasedscratch.cfg", "BufferIsolation", dict(workers=2, count=False, heap="4g")),
+               ("Concurrency_nocopy_bytes.cfg", "BufferIsolation", dict(workers=2, count=False, heap="4g")),
+               ("Concurrency_unlocked.cfg", "NoUnlockedWriteRead", dict(workers=2, count=False, heap="4g"))]
     if not q:
-        ctx.design("Concurrency", "Concurrency_n3.cfg", workers=4, heap="8g", timeout=1500)
-    nv = [("Concurrency_nocopy_bytes.cfg", "BufferIsolation"), ("Concurrency_unlocked.cfg", "NoUnlockedWriteRead")]
-    if not q:
-        nv += [("Concurrency_nocopy_marshal.cfg", "BufferIsolation"), ("Concurrency_unregistered.cfg", "NoUnlockedWriteRead"),
-               ("Concurrency_sharedpool.cfg", "Exclusive")]
-    for cfg, inv in nv:
-        ctx.design("Concurrency", cfg, expect_violation=inv, workers=2, count=False, heap="4g")
-    # (b) schedules chosen by TLC
-    scheds = gen_schedules(ctx, 2, 2, ["marshal", "bytes", "parse", "struct"] if q else ALL[:6], "call")
-    scheds += gen_schedules(ctx, 3, 1, ALL[:6], "call")
+        designs += [("Concurrency_n3.cfg", None, dict(workers=4, heap="8g", timeout=1500)),
+                    ("Concurrency_nocopy_marshal.cfg", "BufferIsolation", dict(workers=2, count=False, heap="4g")),
+                    ("Concurrency_unregistered.cfg", "NoUnlockedWriteRead", dict(workers=2, count=False, heap="4g")),
+                    ("Concurrency_sharedpool.cfg", "Exclusive", dict(workers=2, count=False, heap="4g"))]
+    gens = [(2, 2, ["marshal", "bytes", "parse", "struct"] if q else ALL[:6], "call"), (3, 1, ALL[:6], "call"),
+            # hook granularity: the gates are the call boundaries and the USER's hook inside a "hook" call (any tree)
+            (2, 2, ["hook", "json"] if q else ["hook", "json", "bytes", "parse"], "hook"),
+            (3, 1, ["hook", "json"] if q else ["hook", "json", "bytes", "parse"], "hook")]
     if hooks:
-        scheds += gen_schedules(ctx, 2, 1 if q else 2, ["json", "marshal", "bytes", "parse"] if q else ["marshal", "bytes", "parse"], "gate")
+        gens.append((2, 1 if q else 2, ["json", "marshal", "bytes", "parse"] if q else ["marshal", "bytes", "parse"], "gate"))
+        if not q:
+            gens.append((2, 1, ["hook", "json", "bytes"], "gate"))
+    with cf.ThreadPoolExecutor(4) as ex:
+        dfut = [ex.submit(ctx.design, "Concurrency", cfg, expect_violation=inv, **kw) for cfg, inv, kw in designs]
+        gfut = [ex.submit(gen_schedules, ctx, *g) for g in gens]
+        for f in dfut:
+            f.result()
+        scheds = [s for f in gfut for s in f.result()]
+    # every "hook" op against itself: the complete interleavings TLC emits for two goroutines x one hook call each, once per
+    # real function of the class (package-level scratch is shared by calls that run the same code)
+    hook_ops = [o["name"] for o in json.loads(ctx.run([build(ctx), "ops"]).stdout.decode())["ops"] if o["class"] == "hook"]
+    two = [s for s in scheds if s["gran"] == "hook" and s["prog"] == [["hook"], ["hook"]]]
+    if not two or not hook_ops:
+        raise Infra("no hook-granularity schedules for [[hook],[hook]] / no hook ops")
+    scheds += [dict(s, op=o) for o in hook_ops for s in two]
+    ctx.cov["hook_ops"] = len(hook_ops)
+    ctx.cov["self_pair_schedules"] = len(two)
     for i, s in enumerate(scheds):
         s["id"] = i + 1
     ctx.cov["schedules_replayed"] = len(scheds)
@@ -278,7 +306,7 @@ def main(ctx):
     # (c) free running, -race: the whole menu, plus focused menus in fresh processes (first use of the nested
     # recomposer types; shared filters with multi-valued operands; the buffer-returning calls with large results)
     for n, procs in ((2, 2), (4, 2), (16, 2), (16, 0)) if q else ((2, 2), (2, 0), (4, 2), (4, 0), (16, 2), (16, 0)):
-        cases.append({"free": {"n": n, "ops": 45 if q else 400, "runs": 2 if q else 8, "procs": procs}})
+        cases.append({"free": {"n": n, "ops": 45 if q else 400, "runs": 2 if q else 8, "procs": procs, "skip": "hook[,deep["}})
     for k in range(3 if q else 8):
         cases.append({"free": {"n": 16, "ops": 16, "runs": 1, "procs": (0, 2, 4)[k % 3], "only": "Recompose", "seed": ctx.seed + k}})
     cases.append({"free": {"n": 8, "ops": 60 if q else 300, "runs": 1 if q else 4, "procs": 0, "only": "jp."}})
@@ -304,15 +332,30 @@ def main(ctx):
     cases.append({"free": {"n": 16, "ops": 40 if q else 300, "runs": 1 if q else 4, "procs": 0, "only": "(dest"}})
     cases.append({"free": {"n": 16, "ops": 30 if q else 200, "runs": 1 if q else 3, "procs": 2, "only": "(dest"}})
     cases.append({"free": {"n": 12, "ops": 50 if q else 400, "runs": 1 if q else 4, "procs": 0, "only": "(shared"}})
-    # strict marshal of long MarshalJSON output; json.Unmarshaler targets that yield while oj.JSON / oj.Write run; private data
-    # nested 600 deep through alt and the writers' fallbacks with a yielding Simplify
+    # strict marshal of long MarshalJSON output; json.Unmarshaler targets that yield while oj.JSON / oj.Write run
     cases.append({"free": {"n": 16, "ops": 20 if q else 150, "runs": 1 if q else 3, "procs": 0, "only": "marshaler long,marshaler member"}})
     cases.append({"free": {"n": 12, "ops": 50 if q else 300, "runs": 1 if q else 3, "procs": 0,
                            "only": "unmarshaler,(raw),oj.JSON,oj.Write,oj.Marshal"}})
-    cases.append({"free": {"n": 8, "ops": 25 if q else 150, "runs": 1 if q else 3, "procs": 0, "only": "(deep"}})
+    # the "hook" class: every user-hook interface ojg supports x every entry point (strict and not) x 4 sizes of what the
+    # hook emits / receives x hooks that yield, sleep, or call back into the package-level API; callbacks; and every
+    # recursive entry point on private data nested 10 / 100 / 500 / 1000 deep with yielding Simplifiers
+    plain = "=oj.JSON,=oj.Write,=oj.Marshal,=sen.String,=sen.Bytes,=oj.Parse,=sen.Parse"
+    n_hook = len([o for o in hook_ops if o.startswith("hook[")])
+    n_deep = len([o for o in hook_ops if o.startswith("deep[")])
+    # every op against itself under real parallelism (-pick 1: run r uses op r only): scratch that is shared WITHOUT a user
+    # hook in between (a validator, an escape buffer) only shows when the same code runs on two Ps at once
+    cases.append({"free": {"n": 4, "ops": 6 if q else 12, "runs": n_hook, "procs": 0, "only": "hook[", "pick": 1}})
+    cases.append({"free": {"n": 4, "ops": 4 if q else 8, "runs": n_deep, "procs": 0, "only": "deep[", "pick": 1}})
+    # mixed: the decode-side hooks together with the plain pooled writers / parsers; all hook families on 2 Ps (goroutines
+    # share the per-P pool slots); deep data of all depth classes at once
+    cases.append({"free": {"n": 12, "ops": 40 if q else 200, "runs": 1 if q else 3, "procs": 0,
+                           "only": "hook[ju],hook[attr],hook[rf],hook[raf],hook[conv]," + plain}})
+    cases.append({"free": {"n": 8, "ops": 40 if q else 200, "runs": 1 if q else 3, "procs": 2, "only": "hook[," + plain}})
+    cases.append({"free": {"n": 8, "ops": 20 if q else 100, "runs": 1 if q else 3, "procs": 0, "only": "deep["}})
     recs = judge(ctx, cases)
     for r in recs:
         ctx.add(r["api"], r["kind"], r["locus"], r["witness"], case=r["case"], detail=r.get("detail"))
+    nops = len(json.loads(ctx.run([build(ctx), "ops"]).stdout.decode())["ops"])
     nfree = sum(c["free"]["n"] * c["free"]["ops"] * c["free"]["runs"] for c in cases if "free" in c)
     ctx.cov["evaluations"] = sum(len(p) for s in scheds for p in s["prog"]) + nfree
     ctx.cov["distinct_nontrivial"] = len({json.dumps(s["prog"]) for s in scheds})
@@ -323,7 +366,8 @@ def main(ctx):
                        "around 1024 / 4096 / 65536 bytes) and focused menus in fresh processes (nested recomposer types on first "
                        "use, shared filters with multi-valued operands, buffer-returning calls); every recorded run "
                        "judged by TLC. distinct_nontrivial = distinct program tuples replayed."
-                       % ("pool.Get/pool.Put gates (hooks present) and whole calls" if hooks else "whole calls (no hooks in the tree)", 173))
+                       % ("pool.Get/pool.Put gates (hooks present), user-hook gates and whole calls" if hooks
+                          else "user-hook gates and whole calls (no verif hooks in the tree)", nops))
     ctx.sample(scheds[len(scheds) // 2])
     ctx.sample(cases[1])
     ctx.assumptions += [
